@@ -208,8 +208,12 @@ def step (d : D) (o : Op) : D × String :=
     (d, if o.str "lrobs" == "1" then s!"=> ok lr={if Genesis.roundTripOk d.w.lock d.w.rel then 1 else 0}" else "=> ok lr=-")
   | "a.process" => (d, "=> " ++ res (processProposal d o))
   | "a.checktx" =>
-    -- CheckTx runs the ante chain only
-    (d, "=> " ++ res (ante d o))
+    -- CheckTx runs the ante chain only.  Before the first commit (height 0) the check state is a branch of
+    -- the still empty committed store: the guard's read of the relayer item fails (`collections: not found`),
+    -- so nothing is admitted to the mempool yet.
+    (d, "=> " ++ res (match ante d o with
+      | .ok () => if o.nat "height" == 0 then .err "ante:not-found" else .ok ()
+      | r => r))
   | "a.end" => let r := endBlock d (o.int "time") (o.str "newstatus") (o.str "fcustatus"); (r.1, r.2.2)
   | "tx.raw" => (d, if d.halting then "=> n/a" else "=> err ;; undecodable")
   | _ =>
